@@ -257,6 +257,10 @@ func (rt *Runtime) validator(ctx context.Context, database, username, password s
 		return ctx, true, nil
 	case "fail":
 		return ctx, false, errors.New("validator backend unavailable")
+	case "failtrue":
+		// the verdict flag is set but the validator failed (e.g. a later audit
+		// step): an error means the credentials were not accepted
+		return ctx, true, errors.New("validator failed after matching the password")
 	}
 	return ctx, false, nil
 }
